@@ -20,10 +20,11 @@ type Env struct {
 	state *State
 	old   *State
 	now0  Term // "fresh" means born at or after this
+	bound bool // evaluating under a binder (quantifier / spec body): no side facts may be asserted
 }
 
 func (env *Env) with(name string, v TV) *Env {
-	n := &Env{e: env.e, vars: map[string]TV{}, state: env.state, old: env.old, now0: env.now0}
+	n := &Env{e: env.e, vars: map[string]TV{}, state: env.state, old: env.old, now0: env.now0, bound: env.bound}
 	for k, x := range env.vars {
 		n.vars[k] = x
 	}
@@ -32,7 +33,7 @@ func (env *Env) with(name string, v TV) *Env {
 }
 
 func (env *Env) inState(st *State) *Env {
-	return &Env{e: env.e, vars: env.vars, state: st, old: env.old, now0: env.now0}
+	return &Env{e: env.e, vars: env.vars, state: st, old: env.old, now0: env.now0, bound: env.bound}
 }
 
 var usePatternInference = false
@@ -141,6 +142,9 @@ func (env *Env) eval(x Expr) TV {
 		return env.evalCall(n)
 	case *EQuant:
 		inner := env
+		if !inner.bound {
+			inner = &Env{e: env.e, vars: env.vars, state: env.state, old: env.old, now0: env.now0, bound: true}
+		}
 		var binds []string
 		var guards []Term
 		for _, qv := range n.Vars {
@@ -489,6 +493,9 @@ func (env *Env) evalCall(n *ECall) TV {
 			}
 		}
 		evalFail("lastresult: no call to %s before this point", sx.V)
+	case "runecount":
+		c := App(SInt, "rune_count", arg(0).T)
+		return TV{T: c, Typ: types.Typ[types.Int]}
 	case "strOfBytes":
 		e.declareFun("str_of_arr", []Sort{SInt}, SStr)
 		return TV{T: App(SStr, "str_of_arr", SliceArr(arg(0).T)), Typ: types.Typ[types.String]}
@@ -523,7 +530,11 @@ func (env *Env) evalCall(n *ECall) TV {
 			args = append(args, arg(i).T)
 		}
 		rt, rsrt := e.pureResult(pf)
-		return TV{T: e.pureApp(pf, pf.Name, 0, args, rsrt), Typ: rt}
+		app := e.pureApp(pf, pf.Name, 0, args, rsrt)
+		if !env.bound {
+			e.assumePureFacts(pf, args, app, rt, env)
+		}
+		return TV{T: app, Typ: rt}
 	}
 	// spec function
 	if sf, ok := e.p.Contracts.Specs[n.Fn]; ok {
@@ -556,7 +567,7 @@ func (e *Enc) applySpec(sf *SpecFn, args []Term, env *Env) TV {
 		e.specDecl[name] = true
 		var ps []Sort
 		var bind []string
-		inner := &Env{e: e, vars: map[string]TV{}, state: env.state, old: env.old, now0: env.now0}
+		inner := &Env{e: e, vars: map[string]TV{}, state: env.state, old: env.old, now0: env.now0, bound: true}
 		for _, p := range sf.Params {
 			pt, psrt := e.specType(p.Type)
 			ps = append(ps, psrt)
@@ -622,4 +633,50 @@ func (e *Enc) pureResult(fc *FuncContract) (types.Type, Sort) {
 	}
 	evalFail("pure function %s: result type unknown (not called anywhere?)", fc.Name)
 	return nil, ""
+}
+
+// assumePureFacts: the postconditions of a pure function hold for every application of it; when a contract
+// mentions F(args) the instantiated postconditions are assumed (once per term).
+func (e *Enc) assumePureFacts(pf *FuncContract, args []Term, app Term, rt types.Type, env *Env) {
+	if len(pf.Ens) == 0 {
+		return
+	}
+	key := "purefacts:" + app.S
+	if e.decl[key] || e.pureDepth > 2 {
+		return
+	}
+	e.decl[key] = true
+	e.pureDepth++
+	defer func() { e.pureDepth-- }()
+	var pnames []string
+	var ptypes []types.Type
+	if fn := e.p.Funcs[pf.Name]; fn != nil {
+		for _, p := range fn.Params {
+			pnames = append(pnames, p.Name())
+			ptypes = append(ptypes, p.Type())
+		}
+	} else {
+		pnames = pf.Params
+	}
+	inner := &Env{e: e, vars: map[string]TV{}, state: env.state, old: env.state, now0: env.now0}
+	for i, a := range args {
+		if i < len(pnames) {
+			var t types.Type
+			if i < len(ptypes) {
+				t = ptypes[i]
+			}
+			inner.vars[pnames[i]] = TV{T: a, Typ: t}
+		}
+	}
+	inner.vars["r0"] = TV{T: app, Typ: rt}
+	if len(pf.Results) > 0 {
+		inner.vars[pf.Results[0]] = TV{T: app, Typ: rt}
+	}
+	for _, cl := range pf.Ens {
+		t, err := inner.Eval(cl.Expr)
+		if err != nil {
+			continue
+		}
+		e.assert(t.T)
+	}
 }
